@@ -1,5 +1,6 @@
 """Driver of the extra `node_misc`: node start-up rules outside tahoe.cfg value parsing.
 
+  --mode traces     = priv + pid + blacklist in one process (what the extra runs)
   --mode gen        replays the cases of spec/node/GenNodeStartup.tla (--in {"cases": [...]}) into the real
                     allmydata.node functions: _tub_portlocation + create_main_tub (real foolscap Tub whose public
                     listenOn / setLocation / setOption / addConnectionHintHandler calls are recorded),
@@ -817,9 +818,8 @@ def main():
     plan = json.loads(a.plan)
     root = tempfile.mkdtemp(prefix="nodemisc_")
     try:
-        if a.mode == "all":          # one process for everything: the imports are the expensive part
-            out = {"results": GenReplay(root).run(inp["cases"]),
-                   "priv": priv_traces(root, a.seed, plan["priv"]["traces"], plan["priv"]["events"]),
+        if a.mode == "traces":       # the three history legs in one process (the imports are the expensive part)
+            out = {"priv": priv_traces(root, a.seed, plan["priv"]["traces"], plan["priv"]["events"]),
                    "pid": pid_traces(root, a.seed, plan["pid"]["traces"], plan["pid"]["events"]),
                    "blacklist": blacklist_traces(a.seed, plan["blacklist"]["traces"], plan["blacklist"]["events"])}
         elif a.mode == "gen":
